@@ -87,6 +87,49 @@ def main():
             print(f"  {name}: n_trajectories={ntraj}: simulations={len(runs)} aggregated={agg.get('n')} shots={total}")
             if len(runs) != ntraj or agg.get("n") != ntraj or total != 10 * ntraj:
                 bad = (name, ntraj, len(runs), agg.get("n"), total)
+    # a run that dies after some trajectories (a failing callback, Ctrl-C) must not leak into the next run() of the
+    # same backend object: the second run aggregates exactly its own n trajectories
+    if not bad:
+        nm = pulser.NoiseModel(state_prep_error=0.05)
+        for name, B, C, mod in (("emu-mps", MPSBackend, MPSConfig, MB), ("emu-sv", SVBackend, SVConfig, SB)):
+            ntraj = 4
+            cfg = C(noise_model=nm, n_trajectories=ntraj, observables=[BitStrings(evaluation_times=[1.0], num_shots=10)], log_level=50)
+            backend = B(seq, config=cfg)
+            orig = B._run_from_sequence_data
+            calls = {"n": 0}
+
+            def dies(sd, cfg_, _o=orig):
+                calls["n"] += 1
+                if calls["n"] == 3:
+                    raise KeyboardInterrupt("interrupted by the falsifier after two finished trajectories")
+                return _o(sd, cfg_)
+            B._run_from_sequence_data = staticmethod(dies)
+            try:
+                try:
+                    backend.run()
+                except KeyboardInterrupt:
+                    pass
+            finally:
+                B._run_from_sequence_data = staticmethod(orig)
+            agg = {}
+            orig_agg = Results.aggregate
+
+            def agg_spy(results, *a, **k):
+                agg["n"] = len(results)
+                return orig_agg(results, *a, **k)
+            mod.Results.aggregate = staticmethod(agg_spy)
+            try:
+                res = backend.run()
+            finally:
+                mod.Results.aggregate = orig_agg
+            total = sum(res.bitstrings[-1].values())
+            print(f"  {name}: run interrupted after 2 of {ntraj} trajectories, then run again on the same backend: aggregated "
+                  f"{agg.get('n')} results, {total} shots")
+            if agg.get("n") != ntraj or total != 10 * ntraj:
+                print(f"REPRODUCED: {name}: a run() interrupted after 2 finished trajectories leaks into the next run() of the same "
+                      f"backend object: {agg.get('n')} results aggregated and {total} shots for n_trajectories={ntraj} "
+                      f"(expected {ntraj} and {10 * ntraj})")
+                return 1
     # many trajectories: the LAST
     # aggregation must receive exactly the per-trajectory results, each once, nothing pre-folded
     if not bad:
